@@ -246,13 +246,13 @@ theorem read_readDir :
     rw [mergeDirs_nil_right]
     refine ⟨hl.1, fun n b => ?_⟩
     rw [hl.2 n b, hchild n, overlay_none (abs_below s.buffer Q [n] (by simp) (by simp [hb]))]
-  · rw [hDQ]; simp only [overlay, hb, hr]
+  · rw [hDQ]; simp only [overlay, hb]
     rw [root_readDir_err _ V.hr _ Q hn (by simp [hr]), root_readDir_err _ V.hb _ Q hn (by simp [hb])]
-  · rw [hDQ]; simp only [overlay, hb, hr]
+  · rw [hDQ]; simp only [overlay, hb]
     rw [root_readDir_err _ V.hr _ Q hn (by simp [hr]), root_readDir_err _ V.hb _ Q hn (by simp [hb])]
   · have := V.compat Q _ _ hb hr; simp [Entry.isDir] at this
   · -- only the buffer has the directory
-    rw [hDQ]; simp only [overlay, hb, hr]
+    rw [hDQ]; simp only [overlay, hb]
     obtain ⟨lb, e, hl⟩ := root_readDir_dir _ V.hb _ Q hn hb
     rw [e, root_readDir_err _ V.hr _ Q hn (by simp [hr])]
     refine ⟨mergeDirs [] lb, rfl, ?_⟩
@@ -264,7 +264,7 @@ theorem read_readDir :
     cases abs s.buffer (Q ++ [n]) <;> simp [hrn]
   · have := V.compat Q _ _ hb hr; simp [Entry.isDir] at this
   · -- both
-    rw [hDQ]; simp only [overlay, hb, hr]
+    rw [hDQ]; simp only [overlay, hb]
     obtain ⟨lb, eb, hlb⟩ := root_readDir_dir _ V.hb _ Q hn hb
     obtain ⟨lr, er, hlr⟩ := root_readDir_dir _ V.hr _ Q hn hr
     rw [eb, er]
